@@ -64,6 +64,8 @@ const OPS_FULL: &[&[u8]] = &[
     b"SYST:ERR:COUN? 0\n",
 ];
 
+const OPS_MEDIUM: &[&[u8]] = &[b"SYST:ERR?\n", b"SYST:ERR:COUN?\n", b"V 300\n", b"ZZ\n", b"CE1\n", b"OK\n", b"V 300;:V 'x'\n", b"SYST:ERR:NEXT?;COUN?\n"];
+
 const OPS_SMALL: &[&[u8]] = &[b"SYST:ERR?\n", b"SYST:ERR:COUN?\n", b"V 300\n", b"CE1\n"];
 
 /// Derives the micro-operations of a message: the units are split at ';'
@@ -177,7 +179,7 @@ fn err_key(e: &Error) -> (i16, String) {
 
 #[derive(Clone, PartialEq, Eq, Hash, Debug)]
 struct Key {
-    contents: Vec<(i16, String)>,
+    contents: Vec<(i16, u32)>,
     pushes_mod: usize,
     pops_mod: usize,
 }
@@ -222,7 +224,7 @@ fn execute<const CAP: usize>(ops: &[Op], hist: &[u8]) -> Option<(Vec<Vec<u8>>, V
 }
 
 fn hist_json(ops: &[Op], cap: usize, hist: &[u8]) -> J {
-    json!({"cap": cap, "alphabet": if ops.len() == OPS_SMALL.len() { "small" } else { "full" },
+    json!({"cap": cap, "alphabet": if ops.len() == OPS_SMALL.len() { "small" } else if ops.len() == OPS_MEDIUM.len() { "medium" } else { "full" },
            "history": hist, "messages": hist.iter().map(|&h| show(ops[h as usize].text)).collect::<Vec<_>>()})
 }
 
@@ -283,7 +285,8 @@ fn step<const CAP: usize>(ops: &[Op], hist: &[u8], g: &mut Groups, st: &mut Stat
     if model.len() == CAP {
         st.full_states += 1;
     }
-    Some(Found { key: Key { contents: model, pushes_mod: m.pushes % CAP, pops_mod: m.pops % CAP }, hist: hist.to_vec() })
+    let compact = model.iter().map(|(n, t)| (*n, t.bytes().fold(2166136261u32, |h, b| (h ^ b as u32).wrapping_mul(16777619)))).collect();
+    Some(Found { key: Key { contents: compact, pushes_mod: m.pushes % CAP, pops_mod: m.pops % CAP }, hist: hist.to_vec() })
 }
 
 /// Level-synchronous parallel BFS.
@@ -412,7 +415,7 @@ fn replay(path: &str) -> ! {
     let cap = w["cap"].as_u64().unwrap() as usize;
     let hist: Vec<u8> = w["history"].as_array().unwrap().iter().map(|v| v.as_u64().unwrap() as u8).collect();
     let alpha = w["alphabet"].as_str().unwrap();
-    let ops: Vec<Op> = if alpha == "small" { OPS_SMALL } else { OPS_FULL }.iter().map(|t| describe(t)).collect();
+    let ops: Vec<Op> = if alpha == "small" { OPS_SMALL } else if alpha == "medium" { OPS_MEDIUM } else { OPS_FULL }.iter().map(|t| describe(t)).collect();
     let mut bad = [false; 2];
     for r in 0..2 {
         let mut g = Groups::new();
@@ -424,6 +427,9 @@ fn replay(path: &str) -> ! {
                 2 => direct::<2>(hist.len(), &mut g, &mut st),
                 3 => direct::<3>(hist.len(), &mut g, &mut st),
                 4 => direct::<4>(hist.len(), &mut g, &mut st),
+                5 => direct::<5>(hist.len(), &mut g, &mut st),
+                6 => direct::<6>(hist.len(), &mut g, &mut st),
+                8 => direct::<8>(hist.len(), &mut g, &mut st),
                 _ => direct::<10>(hist.len(), &mut g, &mut st),
             }
         } else {
@@ -432,6 +438,9 @@ fn replay(path: &str) -> ! {
                 2 => step::<2>(&ops, &hist, &mut g, &mut st).is_some(),
                 3 => step::<3>(&ops, &hist, &mut g, &mut st).is_some(),
                 4 => step::<4>(&ops, &hist, &mut g, &mut st).is_some(),
+                5 => step::<5>(&ops, &hist, &mut g, &mut st).is_some(),
+                6 => step::<6>(&ops, &hist, &mut g, &mut st).is_some(),
+                8 => step::<8>(&ops, &hist, &mut g, &mut st).is_some(),
                 _ => step::<10>(&ops, &hist, &mut g, &mut st).is_some(),
             };
         }
@@ -474,13 +483,20 @@ fn main() {
             (st.states + sd.states, st.transitions + sd.transitions, st.execs + sd.execs, st.overflow_states + sd.overflow_states)
         }};
     }
-    let r = [
+    let mut r = vec![
         go!(1, &full, depth, "full"),
         go!(2, &full, depth, "full"),
         go!(3, &full, depth, "full"),
         go!(4, &full, depth, "full"),
         go!(10, &small, depth10, "small"),
     ];
+    if thorough {
+        // capacities between the small ones and the documented 10, full alphabet, shallower
+        let medium: Vec<Op> = OPS_MEDIUM.iter().map(|t| describe(t)).collect();
+        r.push(go!(5, &medium, 9, "medium"));
+        r.push(go!(6, &medium, 9, "medium"));
+        r.push(go!(8, &small, 14, "small"));
+    }
     let states: u64 = r.iter().map(|x| x.0).sum();
     let transitions: u64 = r.iter().map(|x| x.1).sum();
     let execs: u64 = r.iter().map(|x| x.2).sum();
@@ -503,7 +519,8 @@ fn main() {
     out.cov(
         "bounds",
         json!({"operations_full": full.iter().map(|o| json!({"message": show(o.text), "effect": format!("{:?}", o.micro)})).collect::<Vec<_>>(),
-               "operations_small": small.iter().map(|o| show(o.text)).collect::<Vec<_>>(), "per_capacity": per_cap}),
+               "operations_small": small.iter().map(|o| show(o.text)).collect::<Vec<_>>(),
+               "operations_medium": OPS_MEDIUM.iter().map(|o| show(o)).collect::<Vec<_>>(), "per_capacity": per_cap}),
     );
     out.cov("overflow_states_visited", overflow);
     out.cov("samples", json!([["V 300\\n", "CE1\\n", "ZZ\\n", "SYST:ERR?\\n", "SYST:ERR:NEXT?;COUN?\\n"], ["@\\n", "@\\n", "SYST:ERR:COUN?;:V 'x'\\n"]]));
